@@ -78,6 +78,25 @@ theorem rangeBuilder_sem (sh cap : Nat) (rs : List Rng) (hr : ∀ r ∈ rs, r.1 
     rw [degradeRange_eq]
     exact (mem_degraded_range (2 ^ sh) hc r.1 r.2 x (hr r hr')).2 hy
 
+/-- **Every input**, including empty ranges (`start >= end`, the empty set: a zero-duration observation, a
+    zero-width band) — they contribute nothing whatever their alignment on the builder depth.  Before the
+    repair (/repo "fix: RangeMocBuilder kept empty input ranges") an aligned empty range was kept as an empty
+    range of the MOC and an unaligned one became a whole cell. -/
+theorem rangeBuilder_sem_all (sh cap : Nat) (rs : List Rng) :
+    Canon (fromMaxdepthRanges sh cap rs) ∧
+    ∀ x, mem x (fromMaxdepthRanges sh cap rs) ↔ ∃ r ∈ rs, ∃ y, r.1 ≤ y ∧ y < r.2 ∧ x / 2 ^ sh = y / 2 ^ sh := by
+  have e : fromMaxdepthRanges sh cap rs = fromMaxdepthRanges sh cap (rs.filter fun r => decide (r.1 < r.2)) := by
+    rw [fromMaxdepthRanges_eq_all, fromMaxdepthRanges_eq_all, List.filter_filter]; simp
+  have s := rangeBuilder_sem sh cap (rs.filter fun r => decide (r.1 < r.2))
+    (fun r hr => by simpa using (List.mem_filter.1 hr).2)
+  rw [e]
+  refine ⟨s.1, fun x => ?_⟩
+  rw [s.2]
+  constructor
+  · rintro ⟨r, hr, hy⟩; exact ⟨r, (List.mem_filter.1 hr).1, hy⟩
+  · rintro ⟨r, hr, y, h1, h2, h3⟩
+    exact ⟨r, List.mem_filter.2 ⟨hr, by simp; omega⟩, y, h1, h2, h3⟩
+
 /-- Order-, duplication-, overlap- and capacity-invariance of the range builder: two sequences of ranges
     covering the same points give the same MOC, whatever the two capacities. -/
 theorem rangeBuilder_perm (sh cap cap' : Nat) (a b : List Rng) (ha : ∀ r ∈ a, r.1 < r.2) (hb : ∀ r ∈ b, r.1 < r.2)
